@@ -421,7 +421,8 @@ def doc_alias_checks(mon, rec):
                                   {'kind': 'doc', 'ident': o.ident})
 
 
-KW_KEYS = ['a', 'myVar', 'my_var', 'x_', 'from_', 'to_list', 'toList', 'A1', 'CamelCase', 'snake_case_name', 'b__']
+KW_KEYS = ['a', 'myVar', 'my_var', 'x_', 'from_', 'to_list', 'toList', 'A1', 'CamelCase', 'snake_case_name', 'b__',
+           'ключ', 'été', 'µ', '名前', 'naïve', 'Ünï_cödé', 'ß1']
 
 
 def open_kwargs_checks(mon, rec):
